@@ -244,7 +244,8 @@ static void run(const int ipgs)
       vf_assert_id(C_cnt[e] == 1, "exactly one simulation per (variable, active sample) that is not tight");
       vf_assert_id(C_yok[e] == 1, "simulation receives the current vector");
       vf_assert_id(C_icase[e] == item, "simulation called with icase = ivar + nvar*ipgs");
-      vf_assert_id(C_ipgs[e] == ipgs && C_iter[e] == iter, "simulation called with the GS rank and the iteration of the sweep");
+      vf_assert_id(C_ipgs[e] == ipgs, "simulation called with the GS rank of the sweep");
+      vf_assert_id(C_iter[e] == iter, "simulation called with the iteration of the sweep");
       yy[item][i] = 0.;
       bool same = true;
       for (int c2 = 0; c2 < NITEM; c2++)
